@@ -108,7 +108,10 @@ def case(draw):
     # (stale files of the same names and the same sizes as the fresh ones)
     if not missing_dir and draw(st.integers(0, 2)) == 0:
         pre_files = dict(pre_files)
-        pre_files["__pregen__"] = "1"
+        # "1": sibling schema; otherwise the SAME schema generated before, its files then re-written in a look-alike
+        # form (other line endings, byte-order mark, trailing blanks ...): what an editor, a checkout with autocrlf
+        # or a formatter leaves behind.  A regeneration must still end with exactly the returned bytes.
+        pre_files["__pregen__"] = draw(st.sampled_from(["1", "1", "same", "crlf", "crlf", "cr", "strip", "bom", "trail", "nul"]))
     return s, inj, gen, entry, pre_files, missing_dir
 
 
@@ -148,7 +151,7 @@ def run_case(s: M.Schema, gen: str, entry: str, pre_files: Dict[str, str], missi
         else:
             with open(schema_path, "w") as f:
                 f.write(text)
-        pregen = "__pregen__" in pre_files
+        pregen = pre_files.get("__pregen__")
         pre_files = {k: v for k, v in pre_files.items() if k != "__pregen__"}
         if not missing_dir:
             os.makedirs(out_dir)
@@ -159,18 +162,41 @@ def run_case(s: M.Schema, gen: str, entry: str, pre_files: Dict[str, str], missi
                 for im in sib.impls:
                     nf = []
                     for k, v in im.fields:
-                        if k == "id" and isinstance(v, int):
+                        if k == "id" and isinstance(v, int) and pregen == "1":
                             v = v + 1 if len(str(v + 1)) == len(str(v)) else v - 1
                         nf.append((k, v))
                     im.fields = nf
-                fsib, _ts, _es = frontend.parse_schema(sib)
+                if with_mods:
+                    fsib, _ts, _es = frontend.parse_schema_files(sib, sc.path("src0"))
+                else:
+                    fsib, _ts, _es = frontend.parse_schema(sib)
                 if fsib is not None:
                     try:
                         with contextlib.redirect_stdout(io.StringIO()):
                             GeneratorManager(make_general_verifier()).generate(gen, None, None, fsib, out_dir)
                     except BaseException:
                         pass
-                info["pregenerated"] = True
+                info["pregenerated"] = pregen
+                if pregen != "1":
+                    for dp, _dn, fns in os.walk(out_dir):
+                        for fn_ in fns:
+                            pth = os.path.join(dp, fn_)
+                            with open(pth, "rb") as fh:
+                                data = fh.read()
+                            if pregen == "crlf":
+                                data = data.replace(b"\n", b"\r\n")
+                            elif pregen == "cr":
+                                data = data.replace(b"\n", b"\r")
+                            elif pregen == "strip":
+                                data = data.rstrip(b"\n")
+                            elif pregen == "bom":
+                                data = b"\xef\xbb\xbf" + data
+                            elif pregen == "trail":
+                                data = data.replace(b"\n", b" \n")
+                            elif pregen == "nul":
+                                data = data + b"\0"
+                            with open(pth, "wb") as fh:
+                                fh.write(data)
             for n, c in pre_files.items():
                 p = os.path.join(out_dir, n)
                 os.makedirs(os.path.dirname(p), exist_ok=True)
@@ -292,6 +318,8 @@ def run_shard(ctx: Ctx) -> None:
             cl.append("missing_out_dir")
         if info.get("pregenerated"):
             cl.append("regenerated_over_sibling_output")
+            if info["pregenerated"] != "1":
+                cl.append("regenerated_over_lookalike_of_own_output")
         rec.cls(*cl)
         text = printer.to_text(s)
         if "reject_would_write" in cl or coll:
